@@ -596,6 +596,7 @@ def execute(plan: dict, root: str, resume: Run | None = None, only: int | None =
         if lt.get("new_dir"):
             dst_rel = f"ck{ndirs}"
             ndirs += 1
+            run.loop["ndirs"] = ndirs
         else:
             dst_rel = cur_rel
         ctx.dir_rel = dst_rel
